@@ -5,6 +5,7 @@ import vlib, flow
 H = os.path.join(vlib.ROOT, 'harness/kernel/device/tty')
 import gen_trans
 gen_trans.register('tty_vt.json')   # Go -> Gallina translation of the loop-free VT methods (Gen/Trans_tty_vt.v, used by Tty/VtTrans.v)
+gen_trans.register('tty_vt_full.json')   # extended mode: ALL methods of VT incl. loops, stores, console calls (Gen/Trans_tty_vt_full.v, used by Tty/VtFullTrans.v)
 vlib.register_const_dump('kernel', 'device/tty', os.path.join(H, 'zz_verif_consts_test.go'))
 
 M32 = (1 << 32) - 1
